@@ -371,6 +371,15 @@ func (pr *psRule) all(construct string, sel []*Path, how string, prop func(*Path
 	return true
 }
 
+// allIfAny: like all, but an empty selection is acceptable (the case may legitimately not exist).
+func (pr *psRule) allIfAny(construct string, sel []*Path, how string, prop func(*Path) (bool, string)) bool {
+	if len(sel) == 0 {
+		pr.r.OK(pr.rule, pr.p.FuncName(pr.fn)+" / "+construct, pr.pos(), "no such path")
+		return true
+	}
+	return pr.all(construct, sel, how, prop)
+}
+
 // some: at least one selected path satisfies prop.
 func (pr *psRule) some(construct string, sel []*Path, how, missing string, prop func(*Path) bool) bool {
 	key := pr.p.FuncName(pr.fn) + " / " + construct
